@@ -144,3 +144,51 @@ func vhQuery(f func() []any) []any {
 	_ = other
 	return mine
 }
+
+// ---- goroutines started by harnesses
+
+var (
+	vhWG       sync.WaitGroup
+	vhGoMu     sync.Mutex
+	vhGoPanic  any
+	vhSchedOn  func() bool
+	vhSchedGo  func(f func())
+	vhSchedJn  func()
+	vhSchedSet func(sched []int)
+)
+
+func verifShared(root any) {}
+
+func vhGo(f func()) {
+	if vhSchedOn != nil && vhSchedOn() {
+		vhSchedGo(f)
+		return
+	}
+	vhWG.Add(1)
+	go func() {
+		defer vhWG.Done()
+		defer func() {
+			if r := recover(); r != nil {
+				vhGoMu.Lock()
+				vhGoPanic = r
+				vhGoMu.Unlock()
+			}
+		}()
+		f()
+	}()
+}
+
+func verifJoin() {
+	if vhSchedOn != nil && vhSchedOn() {
+		vhSchedJn()
+		return
+	}
+	vhWG.Wait()
+	vhGoMu.Lock()
+	p := vhGoPanic
+	vhGoPanic = nil
+	vhGoMu.Unlock()
+	if p != nil {
+		panic(p)
+	}
+}
